@@ -10,6 +10,8 @@ fn main() {
         "C06" => simx::c06::run_check(&args),
         "C07" => simx::c07::run_check(&args),
         "C08" => simx::c08::run_check(&args),
+        "C09" if args.part.as_deref() == Some("utils") || args.extra.iter().any(|x| x == "--utils") => simx::c09t::run_check(&args),
+        "C09" => simx::c09::run_check(&args),
         "C16" => simx::c16::run_check(&args),
         p => vx::machinery(&format!("simx does not serve {p}")),
     };
